@@ -10,7 +10,7 @@ import enum
 import typing
 from collections import ChainMap, Counter, OrderedDict, defaultdict, deque
 from collections.abc import (
-    AsyncIterator, Awaitable, Callable, Collection, Container, Generator,
+    AsyncGenerator, AsyncIterator, Awaitable, Callable, Collection, Container, Coroutine, Generator,
     Hashable, ItemsView, Iterable, Iterator, KeysView, Mapping, MutableMapping,
     MutableSequence, MutableSet, Reversible, Sequence, Sized, ValuesView,
 )
@@ -147,12 +147,48 @@ class Scores(Table[TInt, TStr]):
     pass
 
 
+# several bases: a constraining builtin generic first, then another user-defined generic (mixin)
+class Tagged(Generic[T]):
+    pass
+
+
+class IntsT(list[int], Tagged[str]):
+    pass
+
+
+class TableT(dict[str, int], Tagged[int]):
+    pass
+
+
+class TaggedInts(Tagged[str], list[int]):
+    pass
+
+
 class GenSeq(Sequence[T]):
     """Pure-Python generic sequence."""
     def __init__(self, items=()): self._items = list(items)
     def __len__(self): return len(self._items)
     def __getitem__(self, i): return self._items[i]
     def __repr__(self): return f'GenSeq({self._items!r})'
+
+
+# ---- further standard-library hints whose runtime meaning is "instance of one class / protocol" ------------
+import contextlib as _contextlib
+import os as _os
+import pathlib as _pathlib
+import re as _re
+from collections.abc import MappingView
+from typing import SupportsAbs, SupportsIndex, SupportsInt
+RePatternStr = _re.Pattern[str]
+ReMatchStr = _re.Match[str]
+PathLikeStr = _os.PathLike[str]
+CtxMgrInt = _contextlib.AbstractContextManager[int]
+
+
+class WithCtx:
+    def __enter__(self): return 1
+    def __exit__(self, *a): return None
+    def __repr__(self): return 'WithCtx()'
 
 
 # ---- PEP 695 aliases ---------------------------------------------------------
